@@ -47,6 +47,30 @@ pub fn run(r: &mut Report) {
             pubs.push((name.to_string(), k, scheme.clone()));
         }
     }
+    // hash-algorithm-list variants: a key built from raw bytes (no list) and with an explicit list survives a JSON round trip
+    // unchanged (same id, equal key), and so does its re-serialisation (byte-identical JSON)
+    {
+        let lists: Vec<Option<Vec<String>>> = vec![None, Some(vec!["sha256".into(), "sha512".into()]), Some(vec!["sha256".into()]), Some(vec![])];
+        let ed_raw = key(1).public().as_bytes().to_vec();
+        let ec_raw = pubs.iter().find(|p| p.0 == "ecdsa").map(|p| p.1.as_bytes().to_vec());
+        for l in &lists {
+            let mut made: Vec<(&str, in_toto::Result<PublicKey>)> = vec![("ed25519", PublicKey::from_ed25519_with_keyid_hash_algorithms(ed_raw.clone(), l.clone()))];
+            if let Some(ec) = &ec_raw { made.push(("ecdsa", PublicKey::from_ecdsa_with_keyid_hash_algorithms(ec.clone(), l.clone()))); }
+            for (name, k) in made {
+                match k {
+                    Ok(k) => {
+                        let js = serde_json::to_string(&k).unwrap();
+                        let back: Result<PublicKey, _> = serde_json::from_str(&js);
+                        let js2 = back.as_ref().ok().map(|b| serde_json::to_string(b).unwrap());
+                        let ok = matches!(&back, Ok(b) if b == &k && b.key_id() == k.key_id()) && js2.as_deref() == Some(js.as_str());
+                        r.case("json-roundtrip-hash-alg-list", json!({"key": name, "keyid_hash_algorithms": l}), "equal key, same id, identical JSON",
+                               format!("{:?} json_identical={}", back.as_ref().map(|b| b.key_id().clone()).map_err(|e| e.to_string()), js2.as_deref() == Some(js.as_str())), ok);
+                    }
+                    Err(e) => r.case("raw-constructor", json!({"key": name, "keyid_hash_algorithms": l}), "Ok", format!("Err({})", e), false),
+                }
+            }
+        }
+    }
     // RFC 8410 ed25519 SPKI (AlgorithmIdentifier without parameters) must be importable
     let raw = key(1).public().as_bytes().to_vec();
     let mut rfc8410 = vec![0x30, 0x2a, 0x30, 0x05, 0x06, 0x03, 0x2b, 0x65, 0x70, 0x03, 0x21, 0x00];
